@@ -61,7 +61,7 @@ class Engine(ExprEval, NumpyModel, NumpyFuncs):
         self.spec_consts = dict(spec_consts or {})
         self.spec_funcs = dict(spec_funcs or {})
         self.spec_names = set(self.spec_funcs) | {"forall", "exists", "implies", "iff", "ite", "old", "shape", "rowsum",
-                                                  "is_none", "typeis", "lam", "isnan_", "fresh", "using", "have", "optval", "gather_pos", "gather_src", "sort_inv", "sort_perm"}
+                                                  "is_none", "typeis", "lam", "isnan_", "fresh", "using", "have", "optval", "isint_", "gather_pos", "gather_src", "sort_inv", "sort_perm"}
         self.externals = dict(externals or {})
         self.obligations: list[Obligation] = []
         self.assumptions: set[str] = set()
@@ -408,9 +408,15 @@ class Engine(ExprEval, NumpyModel, NumpyFuncs):
             raise Unsupported(f"len of {v!r} (TypeError in python)")
         if name == "int":
             v = args[0]
+            if isinstance(v, OptV) and v.nanlike:
+                self.oblige(st, mk_not(v.is_none), "lib", "int(): argument is not nan", node)
+                v = v.value
             if is_intv(v) or is_boolv(v):
                 return v
-            raise Unsupported("int() of a real")
+            if is_concrete(v):
+                raise Unsupported("int() of a concrete real")
+            self.oblige(st, z3.IsInt(v), "lib", "int(): argument is integral (no silent truncation)", node)
+            return z3.ToInt(v)
         if name == "float":
             return to_real(args[0])
         if name == "bool":
@@ -587,6 +593,9 @@ class Engine(ExprEval, NumpyModel, NumpyFuncs):
         if name == "optval":
             v = args[0]
             return v.value if isinstance(v, OptV) else (0 if v is NONE else v)
+        if name == "isint_":
+            v = args[0]
+            return True if is_intv(v) else z3.IsInt(to_z3(to_real(v)))
         if name == "isnan_":
             v = args[0]
             return v.is_none if isinstance(v, OptV) else False
@@ -1201,6 +1210,9 @@ class Engine(ExprEval, NumpyModel, NumpyFuncs):
                 for d in shape:
                     st.assume(d >= 0)
             a = sym_array(name, shape, cur.kind, own=cur.own)
+            if cur.nanmask is not None:
+                nf = z3.Function(fresh_name(name + "_isnan"), *([z3.IntSort()] * cur.rank), z3.BoolSort())
+                a.nanmask = lambda *i: nf(*[to_z3(x) for x in i])
             return a
         if isinstance(cur, Lst):
             elem = cur.elem
@@ -1423,6 +1435,11 @@ class Engine(ExprEval, NumpyModel, NumpyFuncs):
             return Opaque("any", name)
         if b == "arr":
             dims = tuple(int(d) if d.strip().isdigit() else self.eval_dim(st, d, scope) for d in ts.dims)
+            if ts.elem == "nreal":
+                a = sym_array(name, dims, "real", unique=True)
+                nf = z3.Function(fresh_name(name + "_isnan"), *([z3.IntSort()] * len(dims)), z3.BoolSort())
+                a.nanmask = lambda *i: nf(*[to_z3(x) for x in i])
+                return a
             return sym_array(name, dims, ts.elem, unique=True)
         if b == "list":
             l = sym_list(name, ts.elem if isinstance(ts.elem, tuple) else ts.elem)
